@@ -149,8 +149,10 @@ def str_method(P, s, name, args, kwargs):
         zsep = z3.StringVal(sep)
         if maxsplit == 1:
             if P.branch(z3.Contains(z, zsep)):
-                a = P.fresh_str("split_a")
-                b = P.fresh_str("split_b")
+                # canonical: head and tail are functions of the string (two splits of equal strings agree; contracts can name them)
+                tag = ("r" if name == "rsplit" else "") + "split1_" + "".join(f"{ord(c):02x}" for c in sep)
+                a = SStr(ufn(tag + "_head", StrS, StrS)(z))
+                b = SStr(ufn(tag + "_tail", StrS, StrS)(z))
                 P.assume(z == z3.Concat(a.z, zsep, b.z))
                 if name == "split":
                     P.assume(z3.Not(z3.Contains(a.z, zsep)))
